@@ -301,6 +301,9 @@ func ttmlGenModel(r *fw.Rand, forWriter bool) ttmlModel {
 				runs = append(runs, ttmlRun{Text: fw.Pick(r, []string{" ", "  ", " x "}), Attrs: map[string]string{}})
 			}
 			c.Lines = append(c.Lines, runs)
+			if r.P(1, 8) {
+				c.Lines = append(c.Lines, nil) // a spacer line: two consecutive line breaks, or a line break at the very end
+			}
 		}
 		m.Cues = append(m.Cues, c)
 	}
@@ -538,6 +541,17 @@ func ttmlRenderDoc(m ttmlModel, o ttmlRender, r *fw.Rand) []byte {
 		inSpan := false
 		var cur ttmlRun
 		for li, line := range c.Lines {
+			if len(line) == 0 {
+				// an empty line denotes itself: only the line break that follows it (if any) is written
+				if li+1 < len(c.Lines) {
+					if inSpan {
+						b.WriteString(br())
+					} else {
+						b.WriteString(nl(4) + br())
+					}
+				}
+				continue
+			}
 			for ri, run := range line {
 				atLineStart := ri == 0
 				if inSpan {
@@ -562,7 +576,7 @@ func ttmlRenderDoc(m ttmlModel, o ttmlRender, r *fw.Rand) []byte {
 				// close the span unless the next run (after a line break) continues it with br inside
 				lastInLine := ri == len(line)-1
 				if inSpan {
-					if lastInLine && li+1 < len(c.Lines) && o.brInSpan && same(cur, c.Lines[li+1][0]) && r.Bool() {
+					if lastInLine && li+1 < len(c.Lines) && o.brInSpan && r.Bool() && ttmlNextRunSame(c.Lines, li, cur, same) {
 						b.WriteString(br()) // br inside the span; stay in the span
 					} else {
 						b.WriteString("</" + e + "span>")
@@ -571,7 +585,7 @@ func ttmlRenderDoc(m ttmlModel, o ttmlRender, r *fw.Rand) []byte {
 				}
 			}
 			if li+1 < len(c.Lines) && !inSpan {
-				nextPlain := plain(c.Lines[li+1][0])
+				nextPlain := len(c.Lines[li+1]) > 0 && plain(c.Lines[li+1][0])
 				lastPlain := plain(line[len(line)-1])
 				if !lastPlain {
 					b.WriteString(nl(4))
@@ -580,7 +594,11 @@ func ttmlRenderDoc(m ttmlModel, o ttmlRender, r *fw.Rand) []byte {
 				_ = nextPlain
 			}
 		}
-		if !plain(c.Lines[len(c.Lines)-1][len(c.Lines[len(c.Lines)-1])-1]) {
+		if inSpan {
+			b.WriteString("</" + e + "span>") // the span that was kept open over trailing spacer lines
+			inSpan = false
+		}
+		if last := c.Lines[len(c.Lines)-1]; len(last) == 0 || !plain(last[len(last)-1]) {
 			b.WriteString(nl(3))
 		}
 		b.WriteString("</" + e + "p>")
@@ -626,6 +644,17 @@ func ttmlSetAttrs(a map[string]string) *astisub.StyleAttributes {
 		}
 	}
 	return sa
+}
+
+// ttmlNextRunSame tells whether the span of cur may stay open over the line break(s) after line li: the next non-empty
+// line must start with a run of the same style and attributes (spacer lines in between are crossed inside the span)
+func ttmlNextRunSame(lines [][]ttmlRun, li int, cur ttmlRun, same func(a, b ttmlRun) bool) bool {
+	for j := li + 1; j < len(lines); j++ {
+		if len(lines[j]) > 0 {
+			return same(cur, lines[j][0])
+		}
+	}
+	return true // only spacer lines follow: the line breaks may all stand inside the span
 }
 
 type ttmlTimes struct{ Begin, End int64 }
